@@ -93,3 +93,13 @@ Proof.
   destruct (admitted_prefix_cb tr base0 CB0 A pre te post E) as [C G]. intros m.
   apply C08_alternation_local; assumption.
 Qed.
+
+From LE Require Import SimRefresh.
+Lemma refresh_legit_thm tr :
+  admits base0 tr = true -> at_every_position tr (fun b te => ~ In 105 (mon_C01 b te) /\ ~ In 503 (mon_C05 b te)).
+Proof.
+  intros A pre te post E. unfold brun.
+  destruct (admitted_prefix2 tr base0 Inv0 Inv2_0 A pre te post E) as (I & I2 & G).
+  destruct te as [t e]. cbv beta.
+  destruct e; try (apply refresh_legit_apply; assumption); cbn [mon_C01 mon_C05 snd]; split; notin.
+Qed.
